@@ -172,7 +172,9 @@ theorem gen_convert_eq (F : Spec.Sensor.Fns) (r : Rec) (raw : Nat) :
     convert F r (some raw) =
       some (match linTag r.lin with
         | none => .decodingError
-        | some t => applyTag F t (Gen.SensorExpr.fwd_lin_arg r.m r.fmt raw r.b r.k1 r.k2)) := rfl
+        | some t => applyTag F t (Gen.SensorExpr.fwd_lin_arg r.m r.fmt raw r.b r.k1 r.k2)) := by
+  simp only [convert, gen_arg_eq]
+  rfl
 
 theorem gen_signed_spec (r : Nat) (h : r < 256) :
     Gen.SensorExpr.fwd_raw_1 0 r = (r : Int) ∧
